@@ -59,6 +59,13 @@ class MCMCOperator(Identifiable, abc.ABC):
 
     def step(self) -> Tensor:
         self.saved_tensors = [parameter.tensor.clone() for parameter in self.parameters]
+        # reject() restores the underlying (leaf) parameters: assigning a saved tensor to a
+        # TransformedParameter goes through transform.inv, which is not exact in floating point
+        self._saved_leaves = [
+            (leaf, leaf.tensor.clone())
+            for parameter in self.parameters
+            for leaf in parameter.parameters()
+        ]
         return self._step()
 
     def accept(self) -> None:
@@ -68,8 +75,8 @@ class MCMCOperator(Identifiable, abc.ABC):
             self._accept_window.popleft()
 
     def reject(self) -> None:
-        for parameter, saved_tensor in zip(self.parameters, self.saved_tensors):
-            parameter.tensor = saved_tensor
+        for leaf, saved_tensor in self._saved_leaves:
+            leaf.tensor = saved_tensor
         self._reject += 1
         self._accept_window.append(0)
         if len(self._accept_window) > self._accept_window_length:
